@@ -7,12 +7,15 @@ import (
 	"strconv"
 	"strings"
 
+	"github.com/protolambda/zrnt/eth2/beacon/common"
+	"github.com/protolambda/ztyp/tree"
+
 	"verifharness/internal/hreg"
 )
 
 // Harness mode "chainselftest": exercises the library through `harness gen/exec`.
 //
-//	chain <cfgId> <n> <seed> <slots> [balances] [policy] [mutants=<k>] [mode=eth1] [followcode] [want:<cond>,<cond>...]
+//	chain <cfgId> <n> <seed> <slots> [balances] [policy] [mutants=<k>] [mode=eth1] [followcode] [branch=<slot>] [want:<cond>,<cond>...]
 //
 // Exec builds the chain on the real code — every block must be accepted by the real transition with
 // signature and state-root validation on — and answers one canonical line:
@@ -24,7 +27,9 @@ import (
 //
 // mutants=<k>: the mutants of every k-th block are run through the real transition as well; the answer then
 // carries mutants{n=.. rejected=.. valid_accepted=.. wrongly_accepted=.. wrongly_rejected=.. panics=..}.
-// want: conditions are <key>>=<n> or <key>=<n> over the keys of wantValue.
+// branch=<k>: after k slots three siblings are made with Chain.Branch (two seeds, one repeated), advanced 16
+// slots each: different seeds must give different chains, equal seeds equal chains, the original must not move.
+// want: conditions are <key>>=<n> or <key>=<n> over the keys of wantValue (op.<key> reads Counters.Ops).
 func init() { hreg.Register(&hreg.Mode{Name: "chainselftest", Gen: selftestGen, Exec: selftestExec}) }
 
 func selftestGen(o hreg.Opts, w *bufio.Writer) error {
@@ -43,11 +48,23 @@ func selftestGen(o hreg.Opts, w *bufio.Writer) error {
 	line("chain minimal 64 %d 40 uniform quiet want:finalized>=3,leak=0,forks=1", seed())
 	line("chain minimal@1,2,3,4 64 %d 48 uniform quiet want:finalized>=4,leak=0,forks=5", seed())
 	line("chain fast@1,1,2,3 64 %d 64 uniform sparse want:finalized=0,leak>=3,ejections>=1", seed())
-	line("chain fast@2,4,6,8 48 %d 120 uniform leak-recover want:leak>=2,finality_advances>=2,forks=5", seed())
+	line("chain fast@2,4,6,8 48 %d 120 uniform leak-recover-calm want:leak>=2,finality_advances>=2,forks=5", seed())
 	line("chain fast@0,0,0,0 64 %d 40 mixed default mutants=7 want:forks=1,wd_part>=1", seed())
 	line("chain fast@0,0,1,n 64 %d 40 rich over want:forks=2,wd_part>=4", seed())
 	line("chain fast@1,2,3,4 32 %d 40 poor under mode=eth1 want:finalized=0,justified=0", seed())
 	line("chain fast@0,1,2,3 48 %d 64 mixed default followcode want:plainrej=0,epcrepairs=0", seed())
+	// round 2: constants that do not coincide, unusual block shapes, sibling chains
+	line("chain fast@1,2,3,5 64 %d 88 uniform late want:forks=5,op.att_delay:min>=1,op.att_delay:sqrt>=1,op.att_delay:sqrt+1>=1,op.att_delay:spe>=1,op.att_delay:over_spe>=1,op.attestation_reincluded>=1", seed())
+	line("chain fast@1,2,3,4 160 %d 104 rich full want:forks=5,op.block_full:proposer_slashings>=1,op.block_full:attester_slashings>=1,op.block_full:exits>=1,op.block_full:deposits>=1,op.block_full:bls_changes>=1,op.block_full:withdrawals>=1", seed())
+	line("chain apart:1 96 %d 96 mixed full want:forks=5,op.block_full:proposer_slashings>=1,op.block_full:deposits>=1,op.block_full:bls_changes>=1", seed())
+	line("chain fast@0,0,1,2 48 %d 48 mixed edge want:op.extra_data:0>=1,op.extra_data:31>=1,op.extra_data:32>=1,op.txs:0>=1,op.txs:many>=1,op.block_full:blobs>=1", seed())
+	line("chain fast@1,2,3,4 48 %d 104 uniform earlyexit want:forks=5,activations>=2,op.voluntary_exit:at-earliest>=1", seed())
+	line("chain fast2@3,7,11,15 64 %d 136 mixed showcase want:forks=5,fbblocks>=3,fbcomplete>=1,op.eth1_vote:held>=1", seed())
+	line("chain apart:%d 64 %d 80 mixed default mutants=13 want:forks=5", rng.Int63n(1<<20), seed())
+	line("chain apart:%d 97 %d 80 rich eventful want:forks=5", rng.Int63n(1<<20), seed())
+	line("chain apart:%d 50 %d 80 poor late want:forks=5", rng.Int63n(1<<20), seed())
+	line("chain mainnetconst@1,2,3,4 64 %d 48 rich default want:forks=5,wd_part>=1", seed())
+	line("chain fast@1,2,3,4 48 %d 40 mixed eventful branch=20 want:forks=5", seed())
 	// random configurations
 	n := o.Pick(6, 30)
 	bal := []string{"mixed", "uniform", "rich", "poor"}
@@ -66,7 +83,11 @@ func selftestGen(o hreg.Opts, w *bufio.Writer) error {
 		if i%4 == 1 {
 			extra += " mode=eth1"
 		}
-		line("chain rand:%d %d %d %d %s %s%s", cs, nv, seed(), epochs*int(cfg.Spec.SLOTS_PER_EPOCH), bal[rng.Intn(len(bal))], PolicyNames[rng.Intn(len(PolicyNames))], extra)
+		fam := "rand"
+		if i%2 == 1 {
+			fam = "rand2" // same base configuration with the "apart" ingredients mixed in
+		}
+		line("chain %s:%d %d %d %d %s %s%s", fam, cs, nv, seed(), epochs*int(cfg.Spec.SLOTS_PER_EPOCH), bal[rng.Intn(len(bal))], PolicyNames[rng.Intn(len(PolicyNames))], extra)
 	}
 	return nil
 }
@@ -127,6 +148,19 @@ func wantValue(c *Counters, key string) (int, bool) {
 		return c.Blocks, true
 	case "skipped":
 		return c.Skipped, true
+	case "fbblocks", "fbcomplete": // fork-boundary blocks / those carrying every operation kind, over all forks
+		n := 0
+		for _, f := range forkNames[1:] {
+			if key == "fbblocks" {
+				n += c.Ops["fork_boundary_block:"+f]
+			} else {
+				n += c.Ops["fork_boundary_complete:"+f]
+			}
+		}
+		return n, true
+	}
+	if strings.HasPrefix(key, "op.") { // any key of Counters.Ops, e.g. op.att_delay:spe, op.block_full:exits
+		return c.Ops[key[3:]], true
 	}
 	return 0, false
 }
@@ -185,7 +219,8 @@ func selfTestBody(text string) (string, *Counters) {
 		return "bad-op", nil
 	}
 	g := GenesisOpts{Validators: n, Balances: "mixed", Seed: seed}
-	policy, mutEvery, follow := "default", 0, false
+	policy, mutEvery, follow, branchAt := "default", 0, false, 0
+	branchOut := ""
 	var wants []string
 	pos := 0
 	for _, a := range f[5:] {
@@ -200,6 +235,12 @@ func selfTestBody(text string) (string, *Counters) {
 			g.Mode = a[len("mode="):]
 		case a == "followcode":
 			follow = true
+		case strings.HasPrefix(a, "branch="):
+			v, err := strconv.Atoi(a[len("branch="):])
+			if err != nil || v <= 0 {
+				return "bad-op", nil
+			}
+			branchAt = v
 		case strings.HasPrefix(a, "want:"):
 			wants = append(wants, strings.Split(a[len("want:"):], ",")...)
 		case pos == 0:
@@ -232,6 +273,14 @@ func selfTestBody(text string) (string, *Counters) {
 			fmt.Fprintf(os.Stderr, "chainselftest: %s: %v\n", text, err)
 			return fmt.Sprintf("err slot=%d", uint64(c.Slot())+1), &c.Counters
 		}
+		if branchAt > 0 && i+1 == branchAt {
+			res, err := selfTestBranch(c, seed)
+			if err != nil {
+				fmt.Fprintf(os.Stderr, "chainselftest: %s: branch: %v\n", text, err)
+				return fmt.Sprintf("err slot=%d", uint64(c.Slot())+1), &c.Counters
+			}
+			branchOut = res
+		}
 		if s.Block == nil {
 			continue
 		}
@@ -244,6 +293,8 @@ func selfTestBody(text string) (string, *Counters) {
 				case o.Panic != nil:
 					mPanic++
 					fmt.Fprintf(os.Stderr, "chainselftest: %s: slot %d mutant %s: panic %v\n", text, s.Slot, mu.Label, o.Panic)
+				case mu.Unclassified:
+					mRej++ // validity not known by construction: only a panic counts
 				case o.Accepted && mu.ExpectValid:
 					mValidOK++
 				case o.Accepted:
@@ -261,6 +312,10 @@ func selfTestBody(text string) (string, *Counters) {
 	out := c.Counters.Summary()
 	if mutEvery > 0 {
 		out += fmt.Sprintf(" mutants{n=%d rejected=%d valid_accepted=%d wrongly_accepted=%d wrongly_rejected=%d panics=%d}", mn, mRej, mValidOK, mWrongAcc, mWrongRej, mPanic)
+	}
+	out += branchOut
+	if strings.Contains(branchOut, "differ=false") || strings.Contains(branchOut, "original_moved=true") {
+		return "unmet branch " + out, &c.Counters
 	}
 	for _, w := range wants {
 		ok, err := checkWant(&c.Counters, w)
@@ -293,4 +348,39 @@ func selftestExec(o hreg.Opts, sc *bufio.Scanner, w *bufio.Writer) error {
 	}
 	fmt.Fprintf(os.Stderr, "chainselftest: %d lines, %d ok; totals: %s\n", lines, ok, tot.Summary())
 	return sc.Err()
+}
+
+// selfTestBranch makes two siblings of c with different seeds and a third with the first one's seed, advances
+// them 16 slots and reports whether they differ / coincide as they should and whether c stayed put.
+func selfTestBranch(c *Chain, seed int64) (string, error) {
+	head := c.State.HashTreeRoot(tree.GetHashFn())
+	var sib [3]*Chain
+	for i, sd := range []int64{seed + 1, seed + 2, seed + 1} {
+		b, err := c.Branch(sd)
+		if err != nil {
+			return "", err
+		}
+		sib[i] = b
+	}
+	var roots [3][]common.Root
+	blocks := 0
+	for i, b := range sib {
+		steps, err := b.Run(16)
+		if err != nil {
+			return "", err
+		}
+		for _, s := range steps {
+			roots[i] = append(roots[i], s.PostRoot)
+			if i < 2 && s.Block != nil {
+				blocks++
+			}
+		}
+	}
+	differ, same := false, true
+	for j := range roots[0] {
+		differ = differ || roots[0][j] != roots[1][j]
+		same = same && roots[0][j] == roots[2][j]
+	}
+	moved := c.State.HashTreeRoot(tree.GetHashFn()) != head
+	return fmt.Sprintf(" branch{siblings=3 sibling_blocks=%d differ=%v same_seed_same_chain=%v original_moved=%v}", blocks, differ && same, same, moved), nil
 }
